@@ -24,7 +24,7 @@ const c11DevBase = `module dv { namespace "urn:dv"; prefix d;
    leaf cfg { type string; config false; mandatory true; }
    leaf-list ll { type int32; min-elements 1; max-elements 5; }
    leaf-list ll2 { type int32; }
-   list l { key k; unique "a"; unique "b"; leaf k { type string; } leaf a { type string; } leaf b { type string; } }
+   list l { key k; unique "a"; unique "b a"; unique "k b"; leaf k { type string; } leaf a { type string; } leaf b { type string; } }
    container sub { presence p; leaf y { type int8; } }
    leaf last { type string; }
  }
@@ -32,7 +32,17 @@ const c11DevBase = `module dv { namespace "urn:dv"; prefix d;
  %s
 }`
 
+// the same definitions, but the body of container c comes from a grouping that two more containers use as well (the
+// deviation is aimed at /c/... only: the other two expansions must stay as they are)
+var c11DevBaseGrouped = func() string {
+	i, j := strings.Index(c11DevBase, " container c {"), strings.Index(c11DevBase, " rpc r1")
+	body := c11DevBase[i+len(" container c {") : j]
+	body = body[:strings.LastIndex(body, "}")]
+	return c11DevBase[:i] + " grouping cg {" + body + "}\n container c0 { uses cg; }\n container c { uses cg; }\n container c9 { uses cg; }\n" + c11DevBase[j:]
+}()
+
 type c11DevCase struct {
+	Grouped bool   `json:"grouped,omitempty"`
 	Name    string `json:"name"`
 	Target  string `json:"target"`
 	Deviate string `json:"deviate"`
@@ -67,14 +77,19 @@ func c11Dump(text string) (map[string]string, error) {
 func c11DevRun(c c11DevCase, o *hx.Obs) {
 	o.Class("deviate=%s", strings.Fields(c.Deviate)[0])
 	o.NonTrivial()
-	without, err := c11Dump(fmt.Sprintf(c11DevBase, ""))
+	base := c11DevBase
+	if c.Grouped {
+		base = c11DevBaseGrouped
+		o.Class("target expanded from a grouping used three times")
+	}
+	without, err := c11Dump(fmt.Sprintf(base, ""))
 	if err != nil {
 		o.Failf("harness|deviation-base", "%v", err)
 		return
 	}
 	var with map[string]string
 	if o.Guard("LoadModule(deviation)", func() {
-		with, err = c11Dump(fmt.Sprintf(c11DevBase, "deviation \""+c.Target+"\" { deviate "+c.Deviate+" }"))
+		with, err = c11Dump(fmt.Sprintf(base, "deviation \""+c.Target+"\" { deviate "+c.Deviate+" }"))
 	}) {
 		return
 	}
@@ -162,7 +177,7 @@ func c11DevCases() []c11DevCase {
 		{Name: "add-units", Target: "/c/plain", Deviate: "add { units \"v\"; }", Set: map[string]string{at("plain") + "/Units": "v"}},
 		{Name: "add-default", Target: "/c/plain", Deviate: "add { default \"z\"; }", Set: map[string]string{at("plain") + "/Default": "z", at("plain") + "/DefaultValue": "string:z", at("plain") + "/HasDefault": "true"}},
 		{Name: "add-must", Target: "/c/plain", Deviate: "add { must \"q\"; }", Set: map[string]string{at("plain") + "/Musts[0]/Expression": "q", at("plain") + "/Musts[0]/_kind": "Must", at("plain") + "/Musts[0]/Description": "", at("plain") + "/Musts[0]/Reference": "", at("plain") + "/Musts[0]/ErrorMessage": "", at("plain") + "/Musts[0]/ErrorAppTag": ""}},
-		{Name: "add-unique", Target: "/c/l", Deviate: "add { unique \"k a\"; }", Set: map[string]string{at("l") + "/Unique[2][0]": "k", at("l") + "/Unique[2][1]": "a"}},
+		{Name: "add-unique", Target: "/c/l", Deviate: "add { unique \"k a\"; }", Set: map[string]string{at("l") + "/Unique[3][0]": "k", at("l") + "/Unique[3][1]": "a"}},
 		{Name: "add-min-elements", Target: "/c/ll2", Deviate: "add { min-elements 2; }", Set: map[string]string{at("ll2") + "/MinElements": "2", at("ll2") + "/IsMinElementsSet": "true"}},
 		{Name: "add-max-elements", Target: "/c/ll2", Deviate: "add { max-elements 7; }", Set: map[string]string{at("ll2") + "/MaxElements": "7", at("ll2") + "/IsMaxElementsSet": "true", at("ll2") + "/Unbounded": "false"}},
 		{Name: "add-config", Target: "/c/plain", Deviate: "add { config false; }", Set: map[string]string{at("plain") + "/Config": "false"}},
@@ -180,7 +195,8 @@ func c11DevCases() []c11DevCase {
 		{Name: "delete-units", Target: "/c/x", Deviate: "delete { units \"u\"; }", Set: map[string]string{x + "/Units": ""}},
 		{Name: "delete-default", Target: "/c/x", Deviate: "delete { default \"dflt\"; }", Gone: []string{x + "/Default", x + "/DefaultValue"}, Set: map[string]string{x + "/HasDefault": "false"}},
 		{Name: "delete-must", Target: "/c/x", Deviate: "delete { must \"a\"; }", Gone: []string{x + "/Musts[0]", x + "/Musts[1]"}, Set: map[string]string{x + "/Musts[0]/Expression": "b", x + "/Musts[0]/_kind": "Must", x + "/Musts[0]/Description": "", x + "/Musts[0]/Reference": "", x + "/Musts[0]/ErrorMessage": "", x + "/Musts[0]/ErrorAppTag": ""}},
-		{Name: "delete-unique", Target: "/c/l", Deviate: "delete { unique \"a\"; }", Gone: []string{at("l") + "/Unique[0]", at("l") + "/Unique[1]"}, Set: map[string]string{at("l") + "/Unique[0][0]": "b"}},
+		{Name: "delete-unique", Target: "/c/l", Deviate: "delete { unique \"a\"; }", Gone: []string{at("l") + "/Unique[0]", at("l") + "/Unique[1]", at("l") + "/Unique[2]"}, Set: map[string]string{at("l") + "/Unique[0][0]": "b", at("l") + "/Unique[0][1]": "a", at("l") + "/Unique[1][0]": "k", at("l") + "/Unique[1][1]": "b"}},
+		{Name: "delete-unique-pair", Target: "/c/l", Deviate: "delete { unique \"k b\"; }", Gone: []string{at("l") + "/Unique[2]"}},
 		{Name: "delete-units-mismatch", Target: "/c/x", Deviate: "delete { units \"other\"; }", Error: true},
 		{Name: "delete-default-mismatch", Target: "/c/x", Deviate: "delete { default \"other\"; }", Error: true},
 	}
@@ -191,6 +207,11 @@ func c11DeviationTests(s *hx.Session) {
 		cases := c11DevCases()
 		for _, c := range cases {
 			if !yield(c) {
+				return
+			}
+			g := c
+			g.Grouped = true
+			if !yield(g) {
 				return
 			}
 		}
@@ -239,6 +260,10 @@ func c11DeviationTests(s *hx.Session) {
 				for k, v := range b.Set {
 					both.Set[k] = v
 				}
+				if !yield(both) {
+					return
+				}
+				both.Grouped = true
 				if !yield(both) {
 					return
 				}
